@@ -131,7 +131,20 @@ func (r *run) callSSA(fn *ssa.Function, args []Value, env []Value) Value {
 	}
 	if fn.Parent() == nil {
 		if sub, ok := r.eng.Subst[name]; ok && sub != fn {
-			return r.callSSA(sub, args, nil)
+			// A replacement may call the function it replaces (a wrapper: fault injection, counting): inside the
+			// replacement's dynamic extent on the same goroutine the original runs.
+			key := name
+			if r.sch != nil && r.sch.cur != nil {
+				key = fmt.Sprintf("%s#g%d", name, r.sch.cur.id)
+			}
+			if r.inSubst[key] == 0 {
+				if r.inSubst == nil {
+					r.inSubst = map[string]int{}
+				}
+				r.inSubst[key]++
+				defer func() { r.inSubst[key]-- }()
+				return r.callSSA(sub, args, nil)
+			}
 		}
 		if in, ok := r.eng.Intrinsics[name]; ok {
 			r.intrFn = fn
